@@ -49,7 +49,108 @@ pub fn apply(op: &str, a: &BigInt, b: &BigInt, p: &BigInt) -> Option<Option<BigI
     })
 }
 
+pub const BIN_OPS: [&str; 20] = ["add", "sub", "mul", "div", "idiv", "mod_op", "pow", "shift_l", "shift_r", "bit_or", "bit_and",
+    "bit_xor", "bool_or", "bool_and", "eq", "not_eq", "lesser", "greater", "lesser_eq", "greater_eq"];
+pub const UN_OPS: [&str; 4] = ["prefix_sub", "complement_256", "not", "as_bool"];
+
+fn op_json(op: &str, a: &BigInt, b: &BigInt, p: &BigInt) -> Value {
+    match guarded(|| apply(op, a, b, p)) {
+        Ok(Some(Some(v))) => json!(v.to_string()),
+        Ok(Some(None)) => json!("error"),
+        Ok(None) => json!("unknown-op"),
+        Err(pn) => json!({"panic": panic_json(&pn)}),
+    }
+}
+
+/// {p,a,b} without "op": the whole table of the 20 binary and 4 unary operations.
+fn table_case(case: &Value) -> Value {
+    let (a, b, p) = (big(&case["a"]), big(&case["b"]), big(&case["p"]));
+    let bin: Vec<Value> = BIN_OPS.iter().map(|op| op_json(op, &a, &b, &p)).collect();
+    let un: Vec<Value> = UN_OPS.iter().map(|op| op_json(op, &a, &b, &p)).collect();
+    json!({"bin": bin, "un": un})
+}
+
+/// Relations that Field.tla's RefLaws invariant establishes for Ref (TLC, every small field),
+/// evaluated with the real functions only, for operands of any size.
+fn relations_case(case: &Value) -> Value {
+    let (a, b, p) = (big(&case["a"]), big(&case["b"]), big(&case["p"]));
+    let zero = BigInt::from(0);
+    let one = BigInt::from(1);
+    let r = guarded(|| {
+        let mut bad: Vec<&str> = Vec::new();
+        let in_range = |v: &BigInt| v >= &zero && v < &p;
+        for op in BIN_OPS.iter().chain(UN_OPS.iter()) {
+            if *op == "shift_l" || *op == "shift_r" || *op == "pow" {
+                continue; // operand-size dependent cost: covered by the boundary laws
+            }
+            if let Some(Some(v)) = apply(op, &a, &b, &p) {
+                if !in_range(&v) {
+                    bad.push("result-not-canonical");
+                }
+            }
+        }
+        if b != zero {
+            match ma::div(&a, &b, &p) {
+                Ok(q) => {
+                    if ma::mul(&q, &b, &p) != a {
+                        bad.push("mul(div(a,b),b)=a");
+                    }
+                }
+                Err(_) => bad.push("div-by-nonzero-is-error"),
+            }
+            match (ma::idiv(&a, &b, &p), ma::mod_op(&a, &b, &p)) {
+                (Ok(q), Ok(r)) => {
+                    if ma::add(&ma::mul(&q, &b, &p), &r, &p) != a {
+                        bad.push("idiv*b+mod=a");
+                    }
+                    if !(r >= zero && r < b) {
+                        bad.push("0<=mod<b");
+                    }
+                }
+                _ => bad.push("idiv/mod-by-nonzero-is-error"),
+            }
+        }
+        if ma::add(&ma::sub(&a, &b, &p), &b, &p) != a {
+            bad.push("add(sub(a,b),b)=a");
+        }
+        if ma::lesser(&a, &b, &p) + ma::greater_eq(&a, &b, &p) != one {
+            bad.push("lesser+greater_eq=1");
+        }
+        if ma::greater(&a, &b, &p) + ma::lesser_eq(&a, &b, &p) != one {
+            bad.push("greater+lesser_eq=1");
+        }
+        if ma::lesser(&a, &b, &p) != ma::greater(&b, &a, &p) {
+            bad.push("lesser(a,b)=greater(b,a)");
+        }
+        if ma::complement_256(&ma::complement_256(&a, &p), &p) != a {
+            bad.push("complement-involution");
+        }
+        if ma::add(&a, &ma::prefix_sub(&a, &p), &p) != zero {
+            bad.push("a+(-a)=0");
+        }
+        if ma::bit_xor(&ma::bit_xor(&a, &b, &p), &zero, &p) != ma::sub(&ma::bit_or(&a, &b, &p), &ma::bit_and(&a, &b, &p), &p)
+            && (&a | &b) < p
+        {
+            bad.push("xor=or-and");
+        }
+        if ma::eq(&a, &b, &p) + ma::not_eq(&a, &b, &p) != one {
+            bad.push("eq+not_eq=1");
+        }
+        bad
+    });
+    match r {
+        Ok(bad) => json!({"bad": bad}),
+        Err(pn) => json!({"panic": panic_json(&pn)}),
+    }
+}
+
 fn one_case(case: &Value) -> Value {
+    if case.get("rel").is_some() {
+        return relations_case(case);
+    }
+    if case.get("op").is_none() {
+        return table_case(case);
+    }
     let op = case["op"].as_str().unwrap().to_string();
     let (a, b, p) = (big(&case["a"]), big(&case["b"]), big(&case["p"]));
     match guarded(|| apply(&op, &a, &b, &p)) {
